@@ -23,6 +23,10 @@ struct Script {
   int n_interm = 0;          // intermediate solutions to report (MULTISOL)
   int raise_at = 0;          // 1: throw in Solve, 2: throw in ReportResults
   int poll_stop = 0;         // poll interrupter this many times in Solve
+  /// a history of direct value transfers to perform on the converted model (C04):
+  /// each = direction, kind, variable values, constraint values per group
+  struct Xfer { std::string dir, kind; std::vector<double> vars; std::map<int, std::vector<double>> cons; };
+  std::vector<Xfer> hist;
   void Load();
 };
 
@@ -80,6 +84,7 @@ protected:
   ArrayRef<double> PrimalSolution() override;
   pre::ValueMapDbl DualSolution() override;
   void ReportResults() override;
+  void RunHistory();
 
   void Ev(const char *name);
   void EvInts(const char *name, ArrayRef<int> v);
